@@ -14,18 +14,35 @@ func vfNewPlainDoc() *document {
 	return d.(*document)
 }
 
-func c03Value(tag string) (val interface{}, ok bool, ref interface{}) {
-	switch vf.Choice(tag, 5) {
+// c03Value: a value, its class (0 null: the call is invalid, 1 valid, 2 a nil
+// slice / nil map: the library may treat it as an empty container or refuse it
+// as null, but it must do one of the two consistently) and the reference value.
+func c03Value(tag string) (val interface{}, class int, ref interface{}) {
+	switch vf.Choice(tag, 8) {
 	case 0:
-		return nil, false, nil // null value: invalid
+		return nil, 0, nil // null value: invalid
+	case 5:
+		return (*string)(nil), 0, nil // a typed nil pointer is a null value too
+	case 6:
+		return []string(nil), 2, []interface{}{}
+	case 7:
+		return map[string]interface{}(nil), 2, map[string]interface{}{}
 	case 1:
-		return "s", true, "s"
+		return "s", 1, "s"
 	case 2:
-		return 3, true, 3.0 // numbers are stored as float64
+		return 3, 1, 3.0 // numbers are stored as float64
 	case 3:
-		return map[string]interface{}{"n": "v"}, true, map[string]interface{}{"n": "v"}
+		return map[string]interface{}{"n": "v"}, 1, map[string]interface{}{"n": "v"}
 	}
-	return []interface{}{"e"}, true, []interface{}{"e"}
+	return []interface{}{"e"}, 1, []interface{}{"e"}
+}
+
+// c03ok: is the value acceptable, given how the call answered
+func c03ok(class int, err error) bool {
+	if class == 2 {
+		return err == nil
+	}
+	return class == 1
 }
 
 // VF_C03_Document: root object with "o" (object), "arr" (array ["a0","a1"]) and "p" (primitive).
@@ -74,7 +91,7 @@ func VF_C03_Document() {
 				val, vok, rv := c03Value("val")
 				_, e := d.PutToObject(key, val)
 				err = toErr(e)
-				valid = key != "" && vok
+				valid = key != "" && c03ok(vok, err)
 				if valid {
 					ref[key] = rv
 					mutating = true
@@ -94,7 +111,7 @@ func VF_C03_Document() {
 				val, vok, rv := c03Value("val")
 				_, e := arrDoc.InsertToArray(pos, val)
 				err = toErr(e)
-				valid = pos >= 0 && pos <= len(arr) && vok
+				valid = pos >= 0 && pos <= len(arr) && c03ok(vok, err)
 				if valid {
 					na := append([]interface{}{}, arr[:pos]...)
 					na = append(na, rv)
@@ -108,7 +125,7 @@ func VF_C03_Document() {
 				if vf.Choice("many", 2) == 1 { // a range of two
 					_, e := arrDoc.UpdateManyInArray(pos, val, "second")
 					err = toErr(e)
-					valid = pos >= 0 && pos+2 <= len(arr) && vok
+					valid = pos >= 0 && pos+2 <= len(arr) && c03ok(vok, err)
 					if valid {
 						na := append([]interface{}{}, arr...)
 						na[pos], na[pos+1] = rv, "second"
@@ -119,7 +136,7 @@ func VF_C03_Document() {
 				}
 				_, e := arrDoc.UpdateManyInArray(pos, val)
 				err = toErr(e)
-				valid = pos >= 0 && pos < len(arr) && vok
+				valid = pos >= 0 && pos < len(arr) && c03ok(vok, err)
 				if valid {
 					na := append([]interface{}{}, arr...)
 					na[pos] = rv
